@@ -56,6 +56,22 @@ CLAIMS = {
         "not decided: the body of the Fortran module (no Fortran front end: binding table only)."),
   note=NOTE_COMMON + "Oracle: the layers against each other and the doc comments of IPhreeqc.h (parsed by clang). Frozen tables: "
        "c13_api_holes.json, c13_fortran_shifts.json, c13_store.json. Known finding: get_sel_out_string_on ignores its parameter."),
+ "C12": dict(
+  technique="Butcher-tableau extraction by reaching-definition dataflow on the CFG of rk_kinetics + exact rational order conditions (rooted trees to order 5) + step-bookkeeping shape",
+  text=("Static analysis of Phreeqc::rk_kinetics only (the explicit integrator): the stage formulas Set_moles(sum a_sj*k_j), the stage "
+        "times rate_sim_time = start + h_sum + c_s*h, the accepted-step weights, the error-estimate weights and the three low-order "
+        "exits are extracted from the resolved syntax tree by a reaching-definition dataflow over the function's CFG (every "
+        "definition reaching a stage must agree) and evaluated in exact rational arithmetic from the literals as spelled. Decided: "
+        "row sums equal the stage abscissae; the 17 rooted-tree order conditions up to order 5 for the accepted weights; the 8 "
+        "conditions up to order 4 for b - dc and sum dc = 0 (the error estimate is the difference of two consistent schemes); low-order "
+        "exits sum to 1; the integrated time advances by h exactly once and only on the accepted branch, the step is clamped to the "
+        "remaining time, and the final rate time is start + kin_time. A changed Runge-Kutta coefficient, stage index, stage time or a "
+        "moved time accumulation - the mutations the property names - violate one of these exactly; they are necessary conditions of "
+        "'agrees with the exact solution within tolerance for every rate law'. NOT decided: step-size control constants, the CVODE "
+        "path, non-negativity, time bookkeeping outside rk_kinetics, and the tolerance claim itself."),
+  note=NOTE_COMMON + "Assumption recorded in the evidence: the per-component loops are analysed for one generic component (their bodies only touch "
+       "component j). If rk_kinetics is restructured so that stage formulas are no longer linear combinations of rk_moles the check "
+       "exits 2 (analysis broken), never 0."),
 }
 
 NOT_APPLICABLE = {
